@@ -156,7 +156,7 @@ class World:
         self.last_event_when = None
 
     # ------------------------------------------------------------------ operations
-    def feed_bar(self, name, pair_idx=0, volume=None, ohlc=None):
+    def feed_bar(self, name, pair_idx=0, volume=None, ohlc=None, advance=True):
         ctx = self.ctx
         pair = self.pairs[pair_idx]
         if ohlc is not None:
@@ -173,16 +173,20 @@ class World:
             c = ctx.dec(name + "_c", self.qp, lo=1, hi=PRICE_HI)
         if volume is not None:
             v = volume
-        elif self.liq == "inf":
+        elif self.liq == "inf" and self.vols is None:
             v = Decimal(1000)
         elif self.vols is not None:
             v = Decimal(ctx.pick(name + "_volc", self.vols))
         else:
             v = ctx.dec(name + "_v", 8, lo=0, hi=VOL_HI)
         ctx.assume(l <= o, l <= c, o <= h, c <= h)          # valid bar (input validity is C19's subject)
-        b = bar.Bar(self.now, pair, o, h, l, c, v)
-        self.step += 1
-        self.now = T0 + self.step * DAY
+        if advance:
+            b = bar.Bar(self.now, pair, o, h, l, c, v)
+            self.step += 1
+            self.now = T0 + self.step * DAY
+        else:
+            # a second bar event of the same pair for the same instant (e.g. two bar sources of different periods)
+            b = bar.Bar(self.now - 2 * DAY, pair, o, h, l, c, v)
         pre = {oid: self.info(oid) for oid in self.order_ids}
         self.d._last_dt = self.now                  # what BacktestingDispatcher._dispatch_events does
         run(self.e._on_bar_event(bar.BarEvent(self.now, b)))
